@@ -42,7 +42,7 @@ Proof.
   - (* cancel pending *)
     intros x Hx0 Hcp.
     destruct (HJ x)
-      as [H|H1 H2|HS H1 H2 H3 H4|H1 H2 H3 H4 H5 H6|H1 H2 H3 H4 H5|HS H1 H2 H3 H4 H5|HS H1 H2 H3 H4 H5|HS H1 H2 H3 H4 H5|HS H1 H2 H3 H4 H5 H6|HS H1 H2|HS H1 H2 H3].
+      as [H|H1 H2|HS H1 H2 H3 H4|H1 H2 H3 H4 H5 H6 H7|H1 H2 H3 H4 H5 H6|HS H1 H2 H3 H4 H5|HS H1 H2 H3 H4 H5|HS H1 H2 H3 H4 H5|HS H1 H2 H3 H4 H5 H6|HS H1 H2|HS H1 H2 H3].
     + rewrite H in Hcp. apply Hst. apply (n_cp c s I4); auto.
     + destruct H2 as (n & Hin & P1 & P2).
       pose proof (i_pend c s I1 n x Hin) as Hm. apply In_members in Hm. destruct Hm as (_ & Hp & _).
@@ -59,7 +59,7 @@ Proof.
   - (* cancelling / cancelled *)
     intros x Hx0 Hc.
     destruct (HJ x)
-      as [H|H1 H2|HS H1 H2 H3 H4|H1 H2 H3 H4 H5 H6|H1 H2 H3 H4 H5|HS H1 H2 H3 H4 H5|HS H1 H2 H3 H4 H5|HS H1 H2 H3 H4 H5|HS H1 H2 H3 H4 H5 H6|HS H1 H2|HS H1 H2 H3].
+      as [H|H1 H2|HS H1 H2 H3 H4|H1 H2 H3 H4 H5 H6 H7|H1 H2 H3 H4 H5 H6|HS H1 H2 H3 H4 H5|HS H1 H2 H3 H4 H5|HS H1 H2 H3 H4 H5|HS H1 H2 H3 H4 H5 H6|HS H1 H2|HS H1 H2 H3].
     + rewrite H in Hc. apply Hst. apply (n_st c s I4); auto.
     + rewrite H1, cancel_j_st in Hc. apply Hst. apply (n_st c s I4); auto.
     + rewrite H4 in Hc. cbn in Hc. destruct Hc; discriminate.
@@ -76,7 +76,7 @@ Proof.
     + apply Hst. apply (n_cp c s I4); auto.
   - (* cancelled mode of a nested run *)
     intros x Hx0 Hcm.
-    destruct (R_effect lvl c s e s' W Hs x) as [Hq _|_ B1 _ B3 _ _ _ _ _ _ B9|_ A1 A2 A3 _ A4 A5 A6 _].
+    destruct (R_effect lvl c s e s' W Hs x) as [Hq _|_ B1 _ B3 _ _ _ _ _ _ _ B9|_ A1 A2 A3 _ A4 A5 A6 _].
     + destruct Hq as (Q1 & _ & _ & _ & _ & _ & _ & _ & Q9). rewrite Q1, Q9 in Hcm.
       apply Hst. apply (n_cm c s I4); auto.
     + exfalso. destruct Hcm as [Hcm|Hcm].
